@@ -20,6 +20,7 @@ RULE = (
     "TawaziUsageError or produces the complete reference result for the new arguments. non-trivial = history of >= 3 "
     "operations containing a call that omits a defaulted argument after a call that supplied it, or any operation "
     "after a failed one."
+    " Round 8-10 additions: programs that index a result / a DAG argument with a key it does not have (the run fails in the scheduler with a plain exception) followed by a re-run; composed DAGs called without a value for their last (node) input must refuse."
 )
 ASSUMPTIONS = [
     "node functions are pure; setup values are deterministic (a setup node re-run after a failed call is legitimate)",
